@@ -21,10 +21,30 @@ import (
 	"verifh/xa"
 )
 
-type cfg struct{ qps, burst int32 }
+type cfg struct {
+	qps, burst int32
+	// shape: "" = only the tokenBucket member; "global-member" = the rarely used globalTokenBucket member is set as well
+	// (50 x larger) under the default strategy; "global-strategy" = same with strategy globalCount. This limiter runs in
+	// local mode, where the LOCAL member is what binds in all three.
+	shape string
+}
+
+func (c cfg) String() string {
+	if c.shape == "" {
+		return fmt.Sprintf("{%d %d}", c.qps, c.burst)
+	}
+	return fmt.Sprintf("{%d %d %s}", c.qps, c.burst, c.shape)
+}
 
 func tb(name string, c cfg) proxyv1alpha1.FlowControlSchema {
-	return proxyv1alpha1.FlowControlSchema{Name: name, FlowControlSchemaConfiguration: proxyv1alpha1.FlowControlSchemaConfiguration{TokenBucket: &proxyv1alpha1.TokenBucketFlowControlSchema{QPS: c.qps, Burst: c.burst}}}
+	sc := proxyv1alpha1.FlowControlSchema{Name: name, FlowControlSchemaConfiguration: proxyv1alpha1.FlowControlSchemaConfiguration{TokenBucket: &proxyv1alpha1.TokenBucketFlowControlSchema{QPS: c.qps, Burst: c.burst}}}
+	if c.shape != "" {
+		sc.GlobalTokenBucket = &proxyv1alpha1.TokenBucketFlowControlSchema{QPS: c.qps * 50, Burst: c.burst * 50}
+		if c.shape == "global-strategy" {
+			sc.Strategy = proxyv1alpha1.GlobalCountLimit
+		}
+	}
+	return sc
 }
 func mif(name string, m int32) proxyv1alpha1.FlowControlSchema {
 	return proxyv1alpha1.FlowControlSchema{Name: name, FlowControlSchemaConfiguration: proxyv1alpha1.FlowControlSchemaConfiguration{MaxRequestsInflight: &proxyv1alpha1.MaxRequestsInflightFlowControlSchema{Max: m}}}
@@ -32,7 +52,7 @@ func mif(name string, m int32) proxyv1alpha1.FlowControlSchema {
 
 var t0 = time.Unix(1700000000, 0)
 
-var cfgs = []cfg{{1, 1}, {1, 3}, {2, 2}, {4, 8}, {2, 5}}
+var cfgs = []cfg{{qps: 1, burst: 1}, {qps: 1, burst: 3}, {qps: 2, burst: 2}, {qps: 4, burst: 8}, {qps: 2, burst: 5}, {qps: 2, burst: 3, shape: "global-member"}, {qps: 1, burst: 2, shape: "global-strategy"}}
 
 type step struct {
 	kind string
@@ -55,10 +75,10 @@ func steps(c cfg) []step {
 		{kind: "acquire"},
 		{kind: "adv", d: 125 * time.Millisecond}, {kind: "adv", d: 500 * time.Millisecond}, {kind: "adv", d: time.Second}, {kind: "adv", d: 10 * time.Second},
 		{kind: "sync-same"}, {kind: "sync-other-schema"}, {kind: "sync-other-toggled"}, {kind: "sync-reordered"},
-		{kind: "reconf", to: cfg{c.qps, c.burst + 2}},     // burst only
-		{kind: "reconf", to: cfg{c.qps * 2, c.burst}},     // qps only
-		{kind: "reconf", to: cfg{c.qps + 1, c.burst + 1}}, // both
-		{kind: "reconf", to: cfg{c.qps, 1}},               // burst only, down
+		{kind: "reconf", to: cfg{c.qps, c.burst + 2, c.shape}},     // burst only
+		{kind: "reconf", to: cfg{c.qps * 2, c.burst, c.shape}},     // qps only
+		{kind: "reconf", to: cfg{c.qps + 1, c.burst + 1, c.shape}}, // both
+		{kind: "reconf", to: cfg{c.qps, 1, c.shape}},               // burst only, down
 	}
 }
 
@@ -292,10 +312,10 @@ func harnesses(c *ev.Check, b int) []xa.Harness {
 		sh = 4
 	}
 	return []xa.Harness{
-		harnessA(c, "three-acquirers-burst3", cfg{1, 3}, 3, 2, nil, b, sh),
-		harnessA(c, "two-acquirers-burst1", cfg{1, 1}, 2, 2, nil, b, sh),
-		harnessA(c, "acquirers-vs-reconf-burst-down", cfg{1, 3}, 2, 2, &cfg{1, 1}, b, sh),
-		harnessA(c, "acquirers-vs-reconf-qps-only", cfg{1, 2}, 2, 2, &cfg{5, 2}, b, sh),
+		harnessA(c, "three-acquirers-burst3", cfg{qps: 1, burst: 3}, 3, 2, nil, b, sh),
+		harnessA(c, "two-acquirers-burst1", cfg{qps: 1, burst: 1}, 2, 2, nil, b, sh),
+		harnessA(c, "acquirers-vs-reconf-burst-down", cfg{qps: 1, burst: 3}, 2, 2, &cfg{qps: 1, burst: 1}, b, sh),
+		harnessA(c, "acquirers-vs-reconf-qps-only", cfg{qps: 1, burst: 2}, 2, 2, &cfg{qps: 5, burst: 2}, b, sh),
 	}
 }
 
@@ -314,7 +334,11 @@ func main() {
 	for _, base := range cfgs {
 		for k := range steps(base) {
 			base, k := base, k
-			tasks = append(tasks, ev.Task{Name: fmt.Sprintf("enum-%v-first%d", base, k), Run: func() { enumerate(c, base, L, k) }})
+			l := L
+			if base.shape != "" {
+				l = L - 1
+			}
+			tasks = append(tasks, ev.Task{Name: fmt.Sprintf("enum-%v-first%d", base, k), Run: func() { enumerate(c, base, l, k) }})
 		}
 	}
 	bounds := []int{0, 1, 2}
@@ -332,6 +356,6 @@ func main() {
 		"transitions":                   c.Counter("sequences")*int64(L)/2 + c.Counter("steps"),
 		"traces_validated_against_impl": c.Counter("sequences") + c.Counter("schedules"),
 		"sequence_len_bound":            L,
-		"explanation":                   "every step sequence up to the bound over 13 steps x 5 start configurations is one trace of the real limiter on the virtual clock (states = sequences, transitions ~ steps executed); plus the scheduling decision points/steps of the concurrent harnesses.",
+		"explanation":                   "every step sequence up to the bound over 13 steps x 7 start configurations (two of them with the globalTokenBucket member also set, one step shorter) is one trace of the real limiter on the virtual clock (states = sequences, transitions ~ steps executed); plus the scheduling decision points/steps of the concurrent harnesses.",
 	})
 }
